@@ -302,7 +302,7 @@ func classifyErr(f *ssa.Function, v ssa.Value, at *ssa.BasicBlock, depth int) er
 				return errUnknown
 			}
 		}
-		if cls >= 0 {
+		if cls == errNil || cls == errNonNil {
 			return cls
 		}
 	}
@@ -379,7 +379,7 @@ func isFailureValue(f *ssa.Function, v ssa.Value, at *ssa.BasicBlock) bool {
 }
 
 func expand(f *ssa.Function, v ssa.Value, at *ssa.BasicBlock, r *ssa.Return, out *[]successPoint, depth int, seen map[ssa.Value]bool) {
-	if phi, ok := v.(*ssa.Phi); ok && depth < 8 && !seen[v] {
+	if phi, ok := v.(*ssa.Phi); ok && depth < 8 && !seen[v] && phi.Block() == at && !isFailureValue(f, v, at) {
 		seen[v] = true
 		for i, e := range phi.Edges {
 			pred := phi.Block().Preds[i]
